@@ -136,7 +136,36 @@ def eval_redirect(case):
     return out
 
 
-EVALUATORS = {"redirect": eval_redirect}
+def eval_deep(case):
+    """a chain of `depth` nested redirections, evaluated under the interpreter's ordinary recursion limit: the statement bounds the
+    number of steps by the input, not by the depth of the Python stack"""
+    from ural import infer_redirection
+    import sys
+    layer = case["layer"]
+    x = case.get("prefix", "") + layer * case["depth"] + case["final"]
+    expected = case.get("expected", case["final"])
+    old = signal.signal(signal.SIGALRM, _alarm)
+    signal.alarm(60)
+    lim = sys.getrecursionlimit()
+    sys.setrecursionlimit(1000)   # CPython's default: what a caller of the library runs under
+    try:
+        r = infer_redirection(x)
+    except RecursionError:
+        return [("C15/termination", "infer_redirection(%r * %d + %r) hit the recursion limit (%d)" % (layer, case["depth"], case["final"], sys.getrecursionlimit()))]
+    except _Timeout:
+        return [("C15/termination", "infer_redirection(%r * %d + %r) ran > 60 s" % (layer, case["depth"], case["final"]))]
+    except Exception as e:  # noqa
+        return [("C15/raises", "infer_redirection(%r * %d + %r) raised %r" % (layer, case["depth"], case["final"], e))]
+    finally:
+        sys.setrecursionlimit(lim)
+        signal.alarm(0)
+        signal.signal(signal.SIGALRM, old)
+    if r != expected:
+        return [("C15/fixed-point", "infer_redirection(%r * %d + %r) = %r..., expected the innermost target" % (layer, case["depth"], case["final"], r[:80]))]
+    return []
+
+
+EVALUATORS = {"redirect": eval_redirect, "deep": eval_deep}
 
 
 def _nt(case):
@@ -227,6 +256,20 @@ for _q in ["q=%2Fwatch%3Fv%3Dabc", "q=%2F%2Ftwitch.tv%2Fx", "next=/rel&q=x.org",
 UNPARSEABLE_REDIRECTS = ["http://[x/?u=/p", "http://a]b.com/?url=/x", "http://[::1/?next=%2Fy", "[?u=/p", "http://h/?u=http://[x/", "//[?l=/z#["]
 
 
+def _deep(acc, shard, nshards, seed, tier):
+    idx = 0
+    for layer in ["http://a.co/?u=", "x.cdn.ampproject.org/c/s/", "http://a.co/p?redirect_to=", "https://www.youtube.com/redirect?q="]:
+        for depth in ([3, 40, 400, 1200] if tier == "quick" else [3, 40, 400, 1200, 5000, 20000]):
+            for final in ["http://b.co/x", "https://final.org/a?b=c"]:
+                idx += 1
+                if idx % nshards != shard:
+                    continue
+                case = {"kind": "deep", "layer": layer, "depth": depth, "final": final}
+                if "ampproject" in layer:   # cache URLs embed the target without its scheme
+                    case.update(prefix="https://", final=final.split("://")[1], expected="https://" + final.split("://")[1])
+                acc.check(case, True, ["deep-chain"])
+
+
 def _panel(acc, shard, nshards, seed, tier):
     for i, s in enumerate(UNPARSEABLE_REDIRECTS):
         if i % nshards == shard:
@@ -257,6 +300,7 @@ def campaigns(tier, seed):
     return [
         Campaign("redirect-grammar", _grammar_enum, "enumeration", exhaustive=True,
                  bounds="12 positions x 23 keys x 21 targets x 3/4 encoding levels + self-referential / nested (depth 2-4) shapes"),
+        Campaign("deep-chains", _deep, "enumeration", exhaustive=True, bounds="4 redirect layers nested 3..1200 (quick) / ..20000 (thorough) times x 2 final targets"),
         Campaign("cache-youtube-panel", _panel, "enumeration", exhaustive=True,
                  bounds="%d AMP/Marfeel URLs + %d youtube/google redirect URLs" % (len(CACHE_URLS), len(YOUTUBE_URLS))),
         Campaign("random-nesting", hyp_campaign(_strategy, lambda v: v, _nt, None, examples=(3000, 50000)), "hypothesis",
